@@ -411,3 +411,18 @@ Example norm_laws_nonvacuous :
 Proof.
   split; [reflexivity|]. split; [discriminate|]. rewrite norm_inf_R. eexists; reflexivity.
 Qed.
+
+(* ---- tie to the source by proof (package r2c): the functions regenerated from /repo/src on this run by the Rust-subset ->
+   Gallina translator (driver/rust2coq.py -> gen/Src*.v) are equal, for all arguments, to the hand-written model functions
+   the theorems above are about (Proofs/SrcEq*.v).  A change of a loop bound, index, operator or statement order in the
+   source breaks the corresponding src_<function> lemma and with it this obligation. *)
+From OV Require Proofs.SrcEqVector.
+Theorem model_is_source_C15_Vector : forall A : Arith, @SrcEqVector.model_is_source_Vector A.
+Proof. intros A. exact SrcEqVector.model_is_source_Vector_lemma. Qed.
+Check model_is_source_C15_Vector : forall A : Arith, @SrcEqVector.model_is_source_Vector A.
+Print Assumptions model_is_source_C15_Vector.
+From OV Require Proofs.SrcEqVec64.
+Theorem model_is_source_C15_Vec64 : forall (F : SArith) fabs powf, @SrcEqVec64.model_is_source_Vec64 F fabs powf.
+Proof. intros F fabs powf. exact (SrcEqVec64.model_is_source_Vec64_lemma (F:=F) fabs powf). Qed.
+Check model_is_source_C15_Vec64 : forall (F : SArith) fabs powf, @SrcEqVec64.model_is_source_Vec64 F fabs powf.
+Print Assumptions model_is_source_C15_Vec64.
